@@ -59,6 +59,11 @@ type c05Case struct {
 	ShuttingDown bool `json:"shutting_down,omitempty"`
 	// TLS: the connection is under (implicit) TLS; every segment is a record
 	TLS bool `json:"tls,omitempty"`
+	// Settle: the client lets the server come to rest after every segment
+	// (and a moment longer, so that a delivery that has returned is over in
+	// every respect) before it sends the next one. When segments arrive has
+	// no bearing on the framing.
+	Settle bool `json:"settle,omitempty"`
 }
 
 const c05Bait = "MAIL FROM:<bait@x>\r\nRCPT TO:<bait@x>\r\nQUIT\r\nDATA\r\nBDAT 3 LAST\r\n"
@@ -85,8 +90,17 @@ type c05Plan struct {
 func c05Build(c c05Case) c05Plan {
 	var p c05Plan
 	lmtp := c.Mode != 0
-	p.pre.cmd(greetWord(lmtp)+" cli", expect{Code: 250, What: "greeting"})
-	if len(c.Prior) > 0 {
+	// "nogreet": BDAT is the first thing the client says; "greetrefused":
+	// the backend refuses the session (no greeting is in effect either)
+	ungreeted := c.State == "nogreet" || c.State == "greetrefused"
+	switch c.State {
+	case "nogreet":
+	case "greetrefused":
+		p.pre.cmd(greetWord(lmtp)+" cli", expect{Code: 550, What: "greeting refused by the backend"})
+	default:
+		p.pre.cmd(greetWord(lmtp)+" cli", expect{Code: 250, What: "greeting"})
+	}
+	if len(c.Prior) > 0 && !ungreeted {
 		p.pre.cmd("MAIL FROM:<p@x>", expect{Code: 250, What: "earlier MAIL"})
 		p.pre.cmd("RCPT TO:<p0@x>", expect{Code: 250, What: "earlier RCPT"})
 		for i, n := range c.Prior {
@@ -101,7 +115,7 @@ func c05Build(c c05Case) c05Plan {
 			p.pre.cmd("RSET", expect{Code: 250, What: "RSET of the earlier transfer"})
 		}
 	}
-	if c.State != "nomail" {
+	if c.State != "nomail" && !ungreeted {
 		p.pre.cmd("MAIL FROM:<s@x>", expect{Code: 250, What: "MAIL"})
 		for i := 0; i < c.NRcpt; i++ {
 			if c.State == "norcpt" {
@@ -116,7 +130,7 @@ func c05Build(c c05Case) c05Plan {
 		nfinal = c.NRcpt
 	}
 	var total int64
-	refusedAll := c.State == "nomail" || c.State == "norcpt"
+	refusedAll := c.State == "nomail" || c.State == "norcpt" || ungreeted
 	aborted := false
 	for i, ch := range c.Chunks {
 		verb := "BDAT"
@@ -179,7 +193,11 @@ func c05Build(c c05Case) c05Plan {
 		// the transaction is discarded
 		p.body.cmd("RCPT TO:<after@x>", expect{Class: 5, What: "RCPT after discarded transaction"})
 	}
-	if !aborted || c.State == "overlimit" {
+	if ungreeted {
+		// still no greeting: MAIL is refused, the stream is in sync
+		p.body.cmd("NOOP", expect{Code: 250, What: "NOOP"})
+		p.body.cmd("MAIL FROM:<after@x>", expect{Class: 5, What: "MAIL without a greeting"})
+	} else if !aborted || c.State == "overlimit" {
 		// a fresh transaction still works: the stream is in sync
 		p.body.cmd("RSET", expect{Code: 250, What: "RSET"})
 		p.body.cmd("MAIL FROM:<after@x>", expect{Code: 250, What: "MAIL after"})
@@ -223,6 +241,9 @@ func c05Run(c c05Case) Verdict {
 		} else {
 			script.Data = []harness.DataPlan{early}
 		}
+	}
+	if c.State == "greetrefused" {
+		script.NewSession = []harness.Decision{{Kind: "smtp", Code: 550, Enh: [3]int{5, 7, 1}, Msg: "not you"}}
 	}
 	if c.State == "norcpt" {
 		for i := 0; i < c.NRcpt; i++ {
@@ -276,6 +297,22 @@ func c05Run(c c05Case) Verdict {
 		r.Hub.WaitUntil(func() bool { return w.S.ClosedLocked() || w.S.WrittenLocked() > int64(len(w.Out)) }, 400*time.Millisecond)
 		w.WaitQuiet()
 		w.Send(p.body.buf[c.StallAt:])
+	} else if c.Settle && !c.GateStart && len(c.Cuts) > 0 && len(c.Cuts) <= 12 {
+		prev := 0
+		for _, k := range append(append([]int(nil), c.Cuts...), len(p.body.buf)) {
+			if k <= prev || k > len(p.body.buf) {
+				continue
+			}
+			w.Send(p.body.buf[prev:k])
+			prev = k
+			if st := w.WaitQuiet(); st == harness.QClosed {
+				break
+			}
+			time.Sleep(2 * time.Millisecond)
+		}
+		if prev < len(p.body.buf) && !w.S.Closed() {
+			w.Send(p.body.buf[prev:])
+		}
 	} else {
 		w.SendCuts(p.body.buf, c.Cuts)
 	}
@@ -508,7 +545,7 @@ func c05GenPayload(t *rapid.T, maxLine int, label string) []byte {
 
 func c05Gen(t *rapid.T) c05Case {
 	c := c05Case{}
-	c.State = rapid.SampledFrom([]string{"valid", "valid", "valid", "nomail", "norcpt", "badlast", "overlimit", "earlyerr"}).Draw(t, "state")
+	c.State = rapid.SampledFrom([]string{"valid", "valid", "valid", "nomail", "norcpt", "badlast", "overlimit", "earlyerr", "nogreet", "greetrefused"}).Draw(t, "state")
 	c.MaxLine = rapid.SampledFrom([]int{32, 64, 2000}).Draw(t, "maxline")
 	if thorough() && c.MaxLine == 2000 && rapid.IntRange(0, 3).Draw(t, "deflim") == 0 {
 		c.MaxLine = 0
@@ -525,7 +562,7 @@ func c05Gen(t *rapid.T) c05Case {
 		if rapid.IntRange(0, 5).Draw(t, "zeros") == 0 {
 			ch.Zeros = rapid.IntRange(1, 3).Draw(t, "nzeros")
 		}
-		if c.State == "nomail" || c.State == "norcpt" || c.State == "overlimit" {
+		if c.State == "nomail" || c.State == "norcpt" || c.State == "overlimit" || c.State == "nogreet" || c.State == "greetrefused" {
 			if rapid.Bool().Draw(t, "baitpayload") {
 				ch.Payload = c05BaitPayload(len(ch.Payload) + rapid.IntRange(0, 30).Draw(t, "extra"))
 			}
@@ -577,7 +614,7 @@ func c05Gen(t *rapid.T) c05Case {
 			seenLast = c.Chunks[i].Last
 		}
 	}
-	if c.State != "nomail" && c.State != "norcpt" && rapid.IntRange(0, 3).Draw(t, "prior") == 0 {
+	if c.State != "nomail" && c.State != "norcpt" && c.State != "nogreet" && c.State != "greetrefused" && rapid.IntRange(0, 3).Draw(t, "prior") == 0 {
 		total := 0
 		for _, ch := range c.Chunks {
 			total += len(ch.Payload)
@@ -605,6 +642,7 @@ func c05Gen(t *rapid.T) c05Case {
 	c.Reads = genReadSizes(t, "reads")
 	c.GateStart = rapid.IntRange(0, 2).Draw(t, "gate_start") == 0
 	c.ShuttingDown = rapid.IntRange(0, 5).Draw(t, "shutting_down") == 0
+	c.Settle = (c.State == "earlyerr" && rapid.Bool().Draw(t, "settle")) || rapid.IntRange(0, 9).Draw(t, "settle_any") == 0
 	c.TLS = rapid.IntRange(0, 7).Draw(t, "tls") == 0
 	if c.State == "valid" && rapid.IntRange(0, 999).Draw(t, "stall")%100 == 7 {
 		// payloads full of bait, stalled somewhere inside
@@ -747,7 +785,7 @@ func init() {
 
 func TestC05(t *testing.T) {
 	registerAll()
-	st.Rule = "cases = (chunk list with payloads over all 256 octets / bait commands / LF-free runs around the line limit, LAST placement, VRFY markers after chunks, session state valid|nomail|norcpt|badlast|overlimit, optional earlier chunked transaction (completed or RSET) and a size limit the messages fit, line limit, SMTP/LMTP mode, segmentation of the BDAT part, backend read sizes); plus transfers that never get a LAST chunk (the client hangs up at or inside a command boundary, resets, quits, greets again or starts a new MAIL): the reader never reports end-of-file; non-trivial = >=2 chunks OR a refused BDAT with payload OR an LF-free run longer than the line limit OR a BDAT line sharing its segment with the octets that follow; distinct = hash of the whole case"
+	st.Rule = "cases = (chunk list with payloads over all 256 octets / bait commands / LF-free runs around the line limit, LAST placement, VRFY markers after chunks, session state valid|nomail|norcpt|badlast|overlimit|no greeting yet|greeting refused by the backend, optional earlier chunked transaction (completed or RSET) and a size limit the messages fit, line limit, SMTP/LMTP mode, segmentation of the BDAT part, backend read sizes); plus transfers that never get a LAST chunk (the client hangs up at or inside a command boundary, resets, quits, greets again or starts a new MAIL): the reader never reports end-of-file; non-trivial = >=2 chunks OR a refused BDAT with payload OR an LF-free run longer than the line limit OR a BDAT line sharing its segment with the octets that follow; distinct = hash of the whole case"
 	if !regress(t, "C05") {
 		return
 	}
